@@ -31,16 +31,25 @@ def setSlot (name : String) (a : Arg) : Slot :=
   | .value v => .ok v
   | .convFail msg => .error ("error converting supplied value for " ++ name ++ ": " ++ msg)
 
-/-- builder state after starting from `Default` and applying the setters the caller chose:
-    `choice p = none` means the setter of `p` was not called (last call wins otherwise) -/
+/-- one slot after `T::builder()` (= `Default::default()`) and the setters the caller chose:
+    `choice p = none` means the setter of `p` was not called (last call wins otherwise).
+    `Default::default()` evaluates the default expression of EVERY property before any setter runs:
+    a default function that fails (`from_str(..).unwrap()` on a default the property type does not
+    deserialize) fails the whole builder even when the caller then sets that property. -/
+def slotOf (x : Ext) (σ : Space) (fuel : Nat) (choice : Field → Option Arg) (p : Field) : Except E Slot :=
+  match initSlot x σ fuel p with
+  | .error e => .error e
+  | .ok s =>
+    match choice p with
+    | some a => .ok (setSlot p.name a)
+    | none => .ok s
+
+/-- builder state after starting from `Default` and applying the setters the caller chose -/
 def slots (x : Ext) (σ : Space) (fuel : Nat) (choice : Field → Option Arg) :
     List Field → Except E (List (String × Slot))
   | [] => .ok []
   | p :: ps =>
-    let here : Except E Slot := match choice p with
-      | some a => .ok (setSlot p.name a)
-      | none => initSlot x σ fuel p
-    match here, slots x σ fuel choice ps with
+    match slotOf x σ fuel choice p, slots x σ fuel choice ps with
     | .ok s, .ok r => .ok ((p.name, s) :: r)
     | .error e, _ => .error e
     | _, .error e => .error e
